@@ -26,6 +26,7 @@ Protocol (stateful; one history per stream):
   R <g>                         random source (user operator drawing the next sample of a global stream)
   failin <k>                    the (k+1)-th operator forward from now throws
   force <n>                     Node::to_vector   → `ok <v,…> | <operator ids evaluated by this call>`
+  gforce <n> / gbackward <n>    the same two requests through Graph::forward(node) / Graph::backward(node)
   backward <n>                  Node::backward    → `ok | <operator ids evaluated>`
   grad <p> / pval <p>           → `ok <v,…>`
   rndpos                        position of the random stream → `ok <k>`
@@ -158,8 +159,15 @@ def showLog (s : St) (g : Nat) (before after : List Nat) : String :=
   let sil := (s.graphs.getD g {}).silent
   " ".intercalate (((after.drop before.length).filter fun o => !sil.contains o).map toString)
 
+/-- `gforce n` / `gbackward n` are the same requests entering through `Graph::forward(node)` /
+`Graph::backward(node)` (what the C API calls) instead of through the Node: one model operation each -/
+def entryAlias : List String → List String
+  | ["gforce", n] => ["force", n]
+  | ["gbackward", n] => ["backward", n]
+  | ws => ws
+
 def step (s : St) (line : String) : St × String :=
-  match words line with
+  match entryAlias (words line) with
   | ["D", n] => match n.toNat? with
     | some d => ({ s with D := d }, "ok")
     | none => (s, "bad-op")
